@@ -486,6 +486,11 @@ def gen_program(r, nsess, length, profile, uid_base=100):
             byuid = r.random() < 0.4
             s = gen.seqset(r, hi, uid_base if byuid else 0)
             prog.append(['store', i, byuid, s, r.choice([0, 1, 1, 2]), gen_flags(r, profile, store=True), r.random() < 0.25])
+            # the same change made by another session straight afterwards: what one session predicted, was refused or silenced meets
+            # the very change arriving from outside (most often when the first session holds the mailbox read-only)
+            others = [j for j in range(nsess) if j != i and st[j] and st[j][0] == box and not st[j][1]]
+            if others and r.random() < (0.6 if st[i] and st[i][1] else profile.get('echo', 0.12)):
+                prog.append(['store', r.choice(others)] + prog[-1][2:6] + [False])
         elif k == 'fetch':
             byuid = r.random() < 0.4
             s = gen.seqset(r, hi, uid_base if byuid else 0)
